@@ -360,7 +360,7 @@ where
         self.set_display_window(spi, x, y, x + width, y + height)?;
         self.set_cursor(spi, x, y)?;
         self.update_achromatic_frame(spi, delay, buffer)?;
-        self.set_display_window(spi, 0, 0, WIDTH, HEIGHT)
+        self.set_display_window(spi, 0, 0, WIDTH - 1, HEIGHT - 1)
     }
 
     fn display_frame(&mut self, spi: &mut SPI, delay: &mut DELAY) -> Result<(), SPI::Error> {
